@@ -22,7 +22,8 @@ from detsim.simrandom import SimRandom, adversary_from, installed
 
 ID = "C13"
 LEVEL = "exploration"
-RULE = ("one run = one call of RandomKCNF / RandomKXOR (library, both "
+RULE = ("one run = 1-3 requests of one process sharing their argument "
+        "objects, each a call of RandomKCNF / RandomKXOR (library, both "
         "formula classes, seed= given or not, 0-3 planted total assignments) "
         "or of 'cnfgen randkcnf|randkxor [-p] k n m' with (k,n,m) around the "
         "boundaries (k in 0..n+1, m in {0,1,mid,max-1,max,max+1,max+5}), on a "
